@@ -1532,12 +1532,13 @@ func (p *parser) parseProperty() (string, error) {
 func (p *parser) typeFromCode(ch rune) NodeType {
 	switch ch {
 	case 'b':
-		if p.useOptionE() {
+		// RE2 and ECMAScript define \w as ASCII only; \b is a boundary between those
+		if p.useOptionE() || p.useRE2() {
 			return NtECMABoundary
 		}
 		return NtBoundary
 	case 'B':
-		if p.useOptionE() {
+		if p.useOptionE() || p.useRE2() {
 			return NtNonECMABoundary
 		}
 		return NtNonboundary
